@@ -562,7 +562,9 @@ def _impl_psd_series(case):
     cal = C.InterpCalibration(np.array(case['freqs']), np.array(case['sens']))
     ser = util.psd_df(long, fs, waveform_averages=B if B > 1 else None, detrend=None)
     frame = util.psd_df(np.stack([long, 2 * long]), fs, waveform_averages=B if B > 1 else None, detrend=None)
-    true_f = np.arange(n // 2 + 1) * fs / n
+    # the frequency of bin k as NumPy's own rfftfreq states it (k / (n / fs): at the Nyquist bin this float can lie one
+    # ulp above fs / 2, i.e. outside a table that ends exactly at fs / 2 - for the Series and the scalar lookup alike)
+    true_f = np.fft.rfftfreq(n, 1 / fs)
     vals = util.psd(long, fs, waveform_averages=B if B > 1 else None, detrend=None)
     return {'series': _nl(cal.get_db(ser).values), 'frame': _nl(cal.get_db(frame).values), 'labels': _nl(ser.index.values),
             'want': [_n(cal.get_db(f, v)) for f, v in zip(true_f, vals)],
